@@ -76,6 +76,16 @@ def stub_case(rng):
     if rng.random() < 0.25:
         # contact point next to either end of the segment (degenerate index arithmetic of the 75 % features)
         cp_i = rng.choice([0, 1, 2, n - 1, n - 2, n - 3, n - 4, n - 6])
+    hover = rng.random() < 0.3
+    if hover:
+        # a rigid substrate: the tip position saturates at the surface and hovers there (not monotonic any more)
+        # while the force keeps rising; the contact point lies at that level, after the deepest sample
+        k_ = rng.randint(4, max(5, n // 6))
+        # (deflection noise of very different size - but the approach still ends below where it started)
+        sc_ = rng.choice([s_ for s_ in (1.0, 20.0, 400.0, 8000.0) if 2.0 * s_ < (x[0] - x[-k_ - 1])] or [1.0])
+        x[-k_:] = x[-k_ - 1] - sc_ + sc_ * np.array([rng.choice([0.0, 0.5, 1.0, 1.5]) for _ in range(k_)])
+        x[-k_] = x[-k_ - 1] - 2.0 * sc_               # the deepest sample comes first
+        cp_i = n - 1 - rng.randint(0, max(0, k_ - 3))
     cp = float(x[cp_i]) + rng.choice([0.0, 0.5, -0.5])
     d = np.clip(cp - x, 0, None)
     amp = rng.choice([200.0, 4000.0])
@@ -108,7 +118,7 @@ def stub_case(rng):
     ys = np.concatenate([y, np.array([rng.choice([0, 1e6, -50]) for _ in range(nret)], dtype=float)])
     fs = np.concatenate([fit, np.full(nret, np.nan)])
     seg = np.concatenate([np.zeros(n), np.ones(nret)]).astype(np.uint8)
-    return {"kind": kind, "n": n, "cp": cp}, Stub(xs, ys, fs, seg, cp), (x, y, fit, cp)
+    return {"kind": kind + ("+hover" if hover else ""), "n": n, "cp": cp}, Stub(xs, ys, fs, seg, cp), (x, y, fit, cp)
 
 
 def feature_names():
@@ -430,6 +440,20 @@ def values_tie(ctx, count):
                                   f"point with {tlabel}: {diff[0][0]} = {diff[0][2]!r} instead of {diff[0][1]!r}",
                                   {"input": {**meta, "twin": tlabel, "x": [float(t) for t in x], "y": [float(t) for t in y],
                                              "fit": [float(t) for t in fit]}})
+        # the same dataset in SI-like magnitudes (metres, newtons): the value clauses of the property once more, on the
+        # public entry point (the integer-valued original keeps the model tie exact but saturates the logarithms)
+        si = Stub(stub.cols["tip position"] * 1e-8, stub.cols["force"] * 1e-11, stub.cols["fit"] * 1e-11,
+                  stub.cols["segment"], cp * 1e-8)
+        with warnings.catch_warnings(), np.errstate(all="ignore"):
+            warnings.simplefilter("ignore")
+            try:
+                sv, sn = IndentationFeatures.compute_features(si, ret_names=True)
+            except BaseException:  # noqa
+                sv = None
+        if sv is not None and not meta["kind"].startswith("flat") and float(np.max(y)) > 0:
+            judge_values(ctx, meta, list(sn), [float(v_) for v_ in sv], True,
+                         {"input": {**meta, "scaled": "x * 1e-8, force and fit * 1e-11", "x": [float(t) for t in x],
+                                    "y": [float(t) for t in y], "fit": [float(t) for t in fit]}})
         for name in MODELLED:
             with warnings.catch_warnings(), np.errstate(all="ignore"):
                 warnings.simplefilter("ignore")
@@ -451,14 +475,14 @@ def values_tie(ctx, count):
                           f"{case['n']} points)", {"input": case})
             continue
         # the property's value clauses on this dataset (the approach force reaches positive values)
-        if case["kind"] != "flat" and max(case["y"]) > 0:
+        if not case["kind"].startswith("flat") and max(case["y"]) > 0:
             judge_values(ctx, case, [name], [v], True, {"input": case})
         if o == "nan":
             # the model's NaN also stands for a division by zero (inf) - flagged by the oracle below
             if not (np.isnan(v) or np.isinf(v)):
                 ctx.disagree(case, v, o, f"{name}: model gives NaN")
             # (an exactly constant force is degenerate input: only the tie is checked there)
-            if np.isinf(v) and case["kind"] != "flat":
+            if np.isinf(v) and not case["kind"].startswith("flat"):
                 ctx.violation(f"not-finite:{name}", f"{name} = {v!r} on a fitted curve ({case['kind']})",
                               {"input": case})
             continue
